@@ -49,9 +49,36 @@ driver raises, or is passed over — patch 06, the current tree).
     cell of the same flip-flop/latch class as the cell, no further state element in the implementation);
     `substitute_wiring` — the pin-by-pin wiring lemma (host line at instance pin `k` is connected to what port `k` of the
     implementation was connected to, through `node_map`) and the frame (all other host nodes and line ends untouched);
-    `substitute_sem_partial` — every host line not driven by the cell keeps its equation literally.  The full semantic
-    statement `substitute_sem` is written out as a comment above `substitute_sem_partial`; NOT proved: that the copied
-    implementation computes the cell's function at the instance's output lines.
+    `substitute_sem_partial` — every host line not driven by the cell keeps its equation literally (all regular uses, no
+    side condition on the implementation).
+  - **`substitute_sem`** — the FULL semantic statement for `substitute` (vocabulary: Model/SubstSem.lean, Proofs/SubstSem1.lean),
+    for every well-formed host and implementation, every use in which nothing is removed (`keepsAllB`: designated cell
+    exists, no connected-but-ignored input pin, every unconnected output is driven by a node that stays; this contains
+    regular use, `regular_keepsAll`, and allows unconnected input pins), cell neither port nor fork, under the decidable
+    side conditions `implOKB` on the implementation (designated cell not a port, ports distinct, no port a
+    flip-flop/latch, a port that is driven and read inside is a fork).  Relational form, no acyclicity / evaluation order:
+    with `ImplMatches h c m sh anm vm v` = "`(anm, vm)` is a consistent labelling of the implementation whose ports carry
+    the values of the instance's lines in the host labelling `v`" (the line of an input port whose instance pin is
+    unconnected is ABSENT in the implementation, `cutIns m (deadLine …)` — kyupy's own reading of a missing pin, finding
+    D23 — and an unconnected multi-reader port carries `z`), (1) every labelling of the result that is consistent outside a
+    set `S` of host nodes is, on the host lines, consistent for the host outside `S ∪ {cell}` and comes with an
+    `ImplMatches` labelling of the implementation that agrees with it on the copied lines and nodes; (2) every such pair
+    glues to a labelling of the result consistent outside `S`; every copied node reads pin by pin what its original reads
+    (so the new state elements capture what the implementation's capture); the result is well-formed (`substitute_wf`),
+    `node_map` is injective, keeps kinds, host nodes / ports / line indices are untouched, the new lines are the copied
+    lines in order.  `consOff_consistent` ties `ConsOff … ∅` to `consistentB` of C01.
+    `substitute_designated_port_not_wf` — kernel-checked witness that the side condition "designated cell is not a port"
+    is needed: for a Verilog-style feed-through implementation the real `substitute` (and the model) return a circuit that
+    is not well-formed (a copied line loses its reader pin to the instance's input line) — a finding of this round.
+    NOT covered by `substitute_sem` (modelled, covered by `substitute_ports` / `substitute_state_perm` and the oracle only):
+    uses in which `substitute` removes something — an input pin that the implementation ignores (`Line.remove` renumbers
+    lines inside the loop), an unconnected output whose driver dangles (`remove_dangling_nodes`), an implementation
+    without designated cell (`node.remove()`) — and implementations violating `implOKB`.
+  - **`resolve_sem`** — `resolve_tlib_cells` (model `resolveCells`) when every substitution along the loop removes nothing
+    (`resolveOKB`, decidable by running the model): the result is well-formed, keeps ports, other nodes and node keys, and
+    its consistent labellings are exactly the labellings of the original circuit that are consistent outside the library
+    cells and give every library cell the relational meaning (`ImplMatches`) of its implementation — by induction over the
+    loop with `substitute_sem` for hole sets.
   - `resolve_ports` — `resolve_tlib_cells` (model `resolveCells`) keeps the port list, names and order, for every library.
 * **Correspondence** (harness/c10.py, differential, not proof): model dumps after copy / pickle round trip /
   `eliminate_1to1_forks` = dumps of the real objects on random circuits (both port styles, permuted node order,
@@ -63,9 +90,12 @@ driver raises, or is passed over — patch 06, the current tree).
   instance pins), comparing canonical dumps with names; where the real code raises the model answers `none`; the
   model's `regularB` = the harness's own reading of "regular use".  `resolve_tlib_cells` (driver command `resolve`) = the
   real method on random circuits instantiating cells of the five built-in libraries and of synthetic libraries.
-* **Oracle only** (harness/c10.py): the semantic statements for `substitute` (`substitute_sem`) and `resolve_tlib_cells`
-  (Boolean function at ports and state elements unchanged) are not proved; they are decided on the real code by
-  simulation before/after (random compositions, every library cell × pin subsets, synthetic libraries). -/
+* **Oracle only** (harness/c10.py): for the uses of `substitute` / `resolve_tlib_cells` outside the hypotheses of
+  `substitute_sem` / `resolve_sem` (something is removed, `implOKB` fails) the semantic statement (Boolean function at
+  ports and state elements unchanged) is decided on the real code by simulation before/after (random compositions, every
+  library cell × pin subsets, synthetic libraries); the same simulation also runs on the covered uses.  That the real
+  circuits satisfy `keepsAllB` / `implOKB` / `resolveOKB` is not evaluated by the harness yet (the predicates are
+  executable model functions). -/
 namespace KV.C10
 open KV KV.Transform
 variable {skip : Bool}
